@@ -1912,6 +1912,13 @@ class Inliner:
         body, exprmap, pre, ok = self._bind(call, hfn, recv, q)
         if not ok:
             return None
+        if kind == "return" and not is_gen and not _tail_returns_only(nest_early_exits(copy.deepcopy(body))):
+            # `return helper(...)`: every return of the helper is a return of the caller, whatever the helper's shape
+            out = pre + body
+            if not _always_exits(body):
+                out.append(ast.copy_location(ast.Return(value=None), stmt))
+            self._note(q, "?")
+            return out
         body = nest_early_exits(body)
         if kind == "expr" and len(body) >= 2 and isinstance(body[-1], ast.Return) and (body[-1].value is None or isinstance(body[-1].value, ast.Constant)) and isinstance(body[-2], (ast.For, ast.While)):
             body = body[:-1]  # the value is not used at this call site
